@@ -43,3 +43,63 @@ def canary_z3():
     return [Ob("canary:z3:POST", "TimesTypeBuilder.get_min_max_regex", "CANARY",
                "FALSE BY CONSTRUCTION: get_min_max_regex returns None for every 0<=m<=n", st, ["*"], "z3",
                witness=str(bad[0].pc) if bad else "")]
+
+
+@scenario("canary:rx-conformance", "vf.rx (parser + automaton) vs the `regex` module", ["*"],
+          doc="concrete regexes produced by the real compiler: rx acceptance == regex.fullmatch on seeded random words")
+def rx_conformance():
+    """not a canary in the 'must be refuted' sense: a differential self-test of the rx front end; reported as an
+    INTERNAL error (exit 3) if rx and the real engine disagree on any word"""
+    ensure()
+    import random
+    import regex as real
+    from vf.rx import Lang, accepts
+    J.gd.JASMConfig.get_instance().load_config({})
+    sc = lambda: J.sc.SharedContext(capture_manager=J.cm.CapturesManager())
+    pats = [
+        ["mov", {"push": ["rax"]}],
+        [{"$or": ["nop", {"add": ["%rax", {"$deref": {"main_reg": "rbx", "constant_offset": 8}}]}]}],
+        [{"$not": ["call"]}, {"$and_any_order": ["push", "pop"]}],
+        [{"mov": [{"$not": ["rax"]}], "times": {"min": 0, "max": 2}}, "ret"],
+    ]
+    rnd = random.Random(5)
+    alphabet = ["1", "a", ":", ",", "|", "m", "o", "v", "p", "u", "s", "h", "r", "x", "%", "[", "]", "+", "8", "0", "n", "c", "l", "e", "t", "d", "b"]
+    bad = []
+    n = 0
+    for p in pats:
+        tree = J.builder.PatternNodeBuilderNoParents({"$and": p}, sc()).build()
+        text = J.ast_builder.GeneralPatternNodeBuilder().build(tree).get_regex()
+        ast = rx.parse(text).ast
+        # look-aheads are letters in rx: restrict the differential test to look-ahead-free regexes
+        if "(?!" in text:
+            continue
+        L = Lang(rx.strip_groups(ast))
+        comp = real.compile(text)
+        for _ in range(300):
+            k = rnd.choice([0, 5, 9, 12, 15, 20, 30])
+            w = "".join(rnd.choice(alphabet) for _ in range(k))
+            if rnd.random() < 0.5:
+                w = rnd.choice(["1::mov,,|", "1::mov,,|2::push,%rax,|", "a::nop,,|", "1::add,%rax,[%rbx+0x8],|", "1::ret,,|", "1::mov,rbx,|1::ret,,|"]) + \
+                    (w if rnd.random() < 0.3 else "")
+            n += 1
+            if accepts(L, list(w)) != (comp.fullmatch(w) is not None):
+                bad.append((text[:60], w))
+    st = PROVED if not bad and n > 500 else REFUTED
+    # family CANARY expects REFUTED; this is a conformance test, so use family SELFTEST (must be proved)
+    return [Ob("selftest:rx-conformance", "vf.rx", "SELFTEST", f"rx automaton acceptance == regex.fullmatch on {n} words over the stream alphabet", st, ["*"],
+               "rxeq", witness=repr(bad[:2]), detail=repr(bad[:3]))]
+
+
+@scenario("canary:symre", "LineParser.get_splitted_operands", ["*"], doc="'operand order reversed' must be refuted")
+def canary_symre():
+    ensure()
+    from vf import sstr
+
+    def fn():
+        a, b = sstr.var("r0", "%[a-z0-9]+"), sstr.var("k1", "0x[0-9a-f]+") + "(" + sstr.var("a1", "%[a-z0-9]+") + ")"
+        got = J.lp.LineParser.get_splitted_operands(a + "," + b)
+        return [[str.__str__(x) for x in got], [str.__str__(b), str.__str__(a)]]
+    run = sym_run(fn)
+    refuted = all(p.kind == "ret" and p.value[0] != p.value[1] for p in run.paths)
+    return [Ob("canary:symre:POST", "LineParser.get_splitted_operands", "CANARY", "FALSE BY CONSTRUCTION: the splitter returns the operands in reversed order",
+               REFUTED if refuted else PROVED, ["*"], "symre")]
